@@ -199,12 +199,18 @@ def sweep_casts(c, rep, model):
                         meta.append((b, pr, x))
     out = run_lines([model], reqs, timeout=1200)
     bad = 0
+    reported = set()
     for (b, pr, x), o, r in zip(meta, out, reqs):
         c.evaluations += 1
         if not o.startswith("1\t"):
             bad += 1
-            c.spec_violation(f"cast-roundtrip:{b}:{pr[5]}", f"{b}: {pr[6]} ∘ {pr[5]} loses payload bits",
-                             {"request": r, "answer": o, "payload_hex": f"{x:x}"})
+            shape = "ill-typed" if "err:" in o else "lossy"
+            if (b, pr[0], shape) in reported:
+                continue
+            reported.add((b, pr[0], shape))
+            c.spec_violation(f"cast-roundtrip:{b}:{pr[5]}:{shape}",
+                             f"{b}: {pr[6]} ∘ {pr[5]} does not recover the payload" + (" (an emitted expression is ill-typed)" if shape == "ill-typed" else " (bits are lost)"),
+                             {"request": r, "answer": o, "payload_hex": f"{x:x}", "probe": pr[0]})
     c.corr["search:cast-round-trips"] = {"cases": len(reqs), "mismatches": bad}
     return fails
 
@@ -258,6 +264,8 @@ def native_cases(c, rep, lang, scalars=True, casts=True):
         is_cast = "probe" in s
         if (is_cast and not casts) or (not is_cast and not scalars):
             continue
+        if is_cast and s.get("slot_kind") != "num":
+            continue      # pointer-typed slots: the wasm32 data model does not hold natively
         k = (s["list"], s["index"])
         if k in seen:
             continue
